@@ -63,8 +63,15 @@ def r1(rep, prog):
         names = body.var_names()
         gs = [l for l in locals_of_type(body, lambda row: row["k"] == "adt" and row.get("def") == "tantivy::directory::directory::DirectoryLock") if l in names]
         x = [Ev(b, "term", what="searchable_segments") for b, t in calls_to(prog, body, {"tantivy::index::index::Index::searchable_segments"})]
+        # the readers are opened either through an adaptor that is handed `SegmentReader::open` as a value (the
+        # opening then happens inside the consuming `collect`) or by direct calls in a loop
         opens = [Ev(b, "term", what="map(SegmentReader::open)") for b, t in body.calls() if any(o.get("fn") == SR + "::open" for o in t["args"])]
         coll = [Ev(b, "term", what="collect") for b, t in body.calls() if t.get("f", "").endswith("Iterator::collect")]
+        direct = [Ev(b, "term", what="SegmentReader::open") for b, t in calls_to(prog, body, {SR + "::open"})]
+        if direct and not opens:
+            opens, coll = direct, direct
+        elif direct:
+            opens = opens + direct
         if rep.check(bool(gs) and bool(x) and bool(opens) and bool(coll), R, "open_segment_readers: anchors",
                      "named DirectoryLock local, searchable_segments, map(SegmentReader::open), collect",
                      "cannot establish: guard local (bound to `_`?) / searchable_segments / SegmentReader::open / collect missing in open_segment_readers "
@@ -77,13 +84,14 @@ def r1(rep, prog):
     sb = get_body(rep, prog, R, "tantivy::index::index::Index::searchable_segments")
     # who may open segment readers
     allowed = {
+        RD + "open_segment_readers": "the reader side itself: the calls are checked above to lie in the META_LOCK region (absent when the readers are opened through `map(SegmentReader::open)`)",
         I + "index_writer::advance_deletes": "writer side: the segment is protected by its live SegmentEntry/SegmentMeta",
         I + "index_writer::apply_deletes": "writer side: freshly written segment, protected by its live Segment",
         "tantivy::index::index::Index::fields_metadata::{closure#0}": "introspection over searchable segments (not the search path)",
     }
-    rule_who_may_call(rep, prog, R, {SR + "::open"}, "SegmentReader::open", allowed)
+    rule_who_may_call(rep, prog, R, {SR + "::open"}, "SegmentReader::open", allowed, floor=len(allowed) - 1)
     refs = sorted(b.id for b in prog.bodies.values() if (SR + "::open") in prog.body_refs(b))
-    rep.check(refs == [RD + "open_segment_readers"], R, "SegmentReader::open as a value is only used by open_segment_readers", "%s" % [short(r) for r in refs],
+    rep.check(set(refs) <= {RD + "open_segment_readers"}, R, "SegmentReader::open as a value is only used by open_segment_readers", "%s" % [short(r) for r in refs],
               "SegmentReader::open is passed as a function value in %s: a search-path open outside the META_LOCK region" % refs)
     rule_who_may_call(rep, prog, R, {SR + "::open_with_custom_alive_set"}, "SegmentReader::open_with_custom_alive_set", {
         I + "merger::IndexMerger::open_with_custom_alive_set": "merge input readers (writer side, entries held by the merge operation)",
@@ -185,7 +193,7 @@ def r5(rep, prog):
         return
     for b, t in calls_to(prog, body, STORE):
         tr = trace_through(body, op_local(t["args"][1]))
-        okk = any(s[0] == "call" and s[1] == RD + "create_searcher" for s in tr) and ("downcast", "Continue") in tr
+        okk = any(s[0] == "call" and s[1] == RD + "create_searcher" for s in tr) and (("downcast", "Continue") in tr or ("downcast", "Ok") in tr)
         rep.check(okk, R, "reload publishes the Ok value of create_searcher", "store(arg) <- Continue(create_searcher(..)?)",
                   "the value stored by reload does not flow from the Ok-continuation of create_searcher", site=site(body, b))
     rule_precede(rep, prog, R, RD + "reload", {RD + "create_searcher"}, STORE, "create_searcher", "ArcSwap::store")
